@@ -149,13 +149,25 @@ func (c *FenceConn) BeginTx(ctx context.Context, opts driver.TxOptions) (driver.
 	}()
 
 	// do fence operations
-	emptyCallback := func() error {
-		return nil
-	}
-
 	// (assigned to the outer err: the deferred clean-up above looks at it)
-	if err = WithFence(ctx, fenceTx, emptyCallback); err != nil {
+	var proceed bool
+	if proceed, err = doFence(ctx, fenceTx); err != nil {
 		return nil, err
+	}
+	if !proceed {
+		// the business of this delivery must not run, and the caller of BeginTx runs it on the transaction it is
+		// handed: it gets none. What the fence wrote stays (the suspension record of a rollback before its try).
+		tm.SetFenceTxBeginedFlag(ctx, false)
+		if cerr := fenceTx.Commit(); cerr != nil {
+			if rerr := tx.Rollback(); rerr != nil {
+				log.Error(rerr)
+			}
+			return nil, cerr
+		}
+		if rerr := tx.Rollback(); rerr != nil {
+			log.Error(rerr)
+		}
+		return nil, ErrPhaseAlreadyApplied
 	}
 
 	return &FenceTx{
